@@ -379,62 +379,128 @@ Proof.
 Qed.
 
 Lemma embed_unfold tpl css js j :
-  embed tpl css js j = repl JS_PH js (repl DATA_PH (data_script j) (repl CSS_PH css tpl)).
+  embed tpl css js j = repl DATA_PH (data_script j) (repl JS_PH js (repl CSS_PH css tpl)).
 Proof. reflexivity. Qed.
 
 Lemma pfx_eq : Emb.data_prefix = 119 :: tl Emb.data_prefix.
 Proof. reflexivity. Qed.
 Lemma sfx_eq : Emb.data_suffix = [59].
 Proof. reflexivity. Qed.
-Lemma JS_PH_eq : JS_PH = 47 :: tl JS_PH.
-Proof. reflexivity. Qed.
-Lemma JS_PH_ne : JS_PH <> [].
-Proof. discriminate. Qed.
-Lemma DATA_PH_ne : DATA_PH <> [].
-Proof. discriminate. Qed.
 
-Lemma occurs_js_data j : no_js_placeholder j = true -> occurs idc JS_PH (data_script j) = false.
+(* ---- the escaping of '<' ---------------------------------------------------------------- *)
+Lemma esc_lt_app a b : esc_lt (a ++ b) = esc_lt a ++ esc_lt b.
+Proof. unfold esc_lt. apply flat_map_app. Qed.
+
+Lemma esc_lt_no_lt j : forallb (fun x => negb (lowc x =? 60)) (esc_lt j) = true.
 Proof.
-  intros H. unfold no_js_placeholder in H. apply negb_true_iff in H.
-  unfold data_script. rewrite JS_PH_eq. rewrite occurs_skip by (vm_compute; reflexivity).
-  rewrite <- JS_PH_eq. rewrite sfx_eq.
-  apply occurs_app_hd; [apply JS_PH_ne|exact H|vm_compute; reflexivity|vm_compute; reflexivity].
+  induction j as [|c j IH]; [reflexivity|]. unfold esc_lt in *. cbn [flat_map].
+  rewrite forallb_app, IH, andb_true_r. destruct (N.eqb_spec c 60) as [->|Hc]; [reflexivity|].
+  cbn [forallb]. rewrite andb_true_r. apply negb_true_iff. apply N.eqb_neq.
+  unfold lowc. destruct ((65 <=? c) && (c <=? 90)) eqn:E; [|exact Hc].
+  apply andb_prop in E as [E1 E2]. apply N.leb_le in E1. lia.
 Qed.
 
-Inductive shape (js j doc : text) : Prop :=
-| mk_shape (X Y1 Y2 : text) (found : list text)
-    (sh_doc : doc = X ++ data_script j ++ Y1 ++ js ++ Y2)
+(* the escaped JSON text contains no "</script" (indeed no '<' at all) *)
+Lemma esc_lt_no_close j : occurs lowc CLOSE (esc_lt j) = false.
+Proof.
+  pose proof (esc_lt_no_lt j) as H. rewrite CLOSE_eq.
+  replace (esc_lt j) with (esc_lt j ++ []) by apply app_nil_r.
+  rewrite (occurs_skip lowc 60 (tl CLOSE) _ [] H). reflexivity.
+Qed.
+
+Lemma esc_lt_id x : forallb (fun c => negb (c =? 60)) x = true -> esc_lt x = x.
+Proof.
+  induction x as [|c x IH]; intros H; [reflexivity|]. cbn [forallb] in H. apply andb_prop in H as [H1 H2].
+  apply negb_true_iff in H1. unfold esc_lt in *. cbn [flat_map]. rewrite H1, (IH H2). reflexivity.
+Qed.
+
+(* str.replace with the one-character pattern "<" is this character-wise map *)
+Lemma repl_unfold p new s : p <> [] ->
+  repl p new s = match find_split p s with None => s | Some (a, b) => a ++ new ++ repl p new b end.
+Proof.
+  intros Hp. unfold repl at 1. cbn [repl_fuel]. destruct (find_split p s) as [[a b]|] eqn:F; [|reflexivity].
+  rewrite (repl_fuel_enough p new Hp); [reflexivity|]. apply (find_shrinks _ _ _ _ Hp F).
+Qed.
+
+Lemma find_lt_esc : forall s,
+  match find_split [60] s with
+  | None => esc_lt s = s
+  | Some (a, b) => esc_lt s = a ++ LT_ESC ++ esc_lt b
+  end.
+Proof.
+  induction s as [|c s IH]; [reflexivity|]. cbn [find_split prefix]. unfold idc at 1.
+  destruct (N.eqb_spec c 60) as [->|Hc].
+  - cbn [andb skipn length]. reflexivity.
+  - cbn [andb].
+    assert (E : esc_lt (c :: s) = c :: esc_lt s).
+    { unfold esc_lt. cbn [flat_map]. rewrite (proj2 (N.eqb_neq c 60) Hc). reflexivity. }
+    destruct (find_split [60] s) as [[a b]|]; rewrite E, IH; reflexivity.
+Qed.
+
+Lemma esc_lt_is_repl s : esc_lt s = repl [60] LT_ESC s.
+Proof.
+  remember (length s) as n eqn:Hn. revert s Hn.
+  induction n as [n IH] using lt_wf_ind. intros s Hn.
+  rewrite repl_unfold by discriminate. pose proof (find_lt_esc s) as H.
+  destruct (find_split [60] s) as [[a b]|] eqn:F; [|exact H].
+  rewrite H. f_equal. f_equal. apply (IH (length b)); [|reflexivity].
+  subst n. apply (find_shrinks [60] s a b); [discriminate|exact F].
+Qed.
+
+(* JSON: the escaped encoding of a string decodes to the string *)
+Lemma enc_char_no_lt c : c <> 60 -> forallb (fun x => negb (x =? 60)) (enc_char c) = true.
+Proof.
+  intros Hc. unfold enc_char.
+  repeat match goal with |- context [if ?c =? ?k then _ else _] => destruct (N.eqb_spec c k); [reflexivity|] end.
+  assert (Hh : forall d, negb (hexd d =? 60) = true).
+  { intros d. apply negb_true_iff, N.eqb_neq. unfold hexd. destruct (N.ltb_spec d 10); lia. }
+  destruct ((32 <=? c) && (c <=? 126)).
+  - cbn [forallb]. rewrite andb_true_r. apply negb_true_iff, N.eqb_neq, Hc.
+  - destruct (c <? 65536); unfold uesc, hex4; cbn [app forallb]; rewrite !Hh; reflexivity.
+Qed.
+
+Lemma dec_esc_enc_char c rest : is_scalar c = true ->
+  dec_body (esc_lt (enc_char c) ++ rest) = ocons c (dec_body rest).
+Proof.
+  intros Hs. destruct (N.eqb_spec c 60) as [->|Hc]; [reflexivity|].
+  rewrite (esc_lt_id _ (enc_char_no_lt _ Hc)). apply dec_enc_char, Hs.
+Qed.
+
+Lemma dec_esc_enc_body s : forallb is_scalar s = true -> dec_body (esc_lt (enc_body s) ++ [34]) = Some s.
+Proof.
+  induction s as [|c s IH]; intros H; [reflexivity|].
+  cbn [forallb] in H. apply andb_prop in H as [H1 H2].
+  unfold enc_body. cbn [flat_map]. rewrite esc_lt_app, <- app_assoc, (dec_esc_enc_char _ _ H1).
+  fold (enc_body s). rewrite (IH H2). reflexivity.
+Qed.
+
+Lemma json_escaped_roundtrip s : forallb is_scalar s = true -> decode (esc_lt (encode s)) = Some s.
+Proof.
+  intros H. unfold encode. change (34 :: enc_body s ++ [34]) with ([34] ++ enc_body s ++ [34]).
+  rewrite !esc_lt_app. change (esc_lt [34]) with [34]. cbn [app]. unfold decode.
+  change (34 =? 34) with true. cbn iota. apply dec_esc_enc_body, H.
+Qed.
+
+(* ---- shape of the assembled document ---------------------------------------------------- *)
+Inductive shape (j doc : text) : Prop :=
+| mk_shape (X Y : text) (found : list text)
+    (sh_doc : doc = X ++ data_script j ++ Y)
     (sh_scan : scan_pre MData [] X = Some (MScript, [], found))
     (sh_none : forallb (fun t => negb (is_data_script t)) found = true)
-    (sh_close : closes Y1 = true).
+    (sh_close : closes Y = true).
 
-(* with a well-formed template and no JS placeholder inside the data, the three replacements
-   put the data script, verbatim, into the data element *)
-Lemma embed_shape tpl css js j :
-  tpl_ok tpl css = true -> no_js_placeholder j = true -> shape js j (embed tpl css js j).
+(* the data goes in last and str.replace does not rescan what it inserted: whatever the data contains,
+   the data script sits verbatim in the data element *)
+Lemma embed_shape tpl css js j : tpl_ok tpl css js = true -> shape j (embed tpl css js j).
 Proof.
-  intros Hok Hj. rewrite embed_unfold. unfold tpl_ok in Hok.
-  destruct (find_split DATA_PH (repl CSS_PH css tpl)) as [[X Y]|] eqn:FD; [|discriminate].
-  repeat (apply andb_prop in Hok as [Hok ?]).
-  rename H into HJS, H0 into HY0, H1 into HSC, H2 into HXJ. rename Hok into HDY.
+  intros Hok. rewrite embed_unfold. unfold tpl_ok in Hok.
+  destruct (find_split DATA_PH (repl JS_PH js (repl CSS_PH css tpl))) as [[X Y]|] eqn:FD; [|discriminate].
+  apply andb_prop in Hok as [Hok HC]. apply andb_prop in Hok as [HDY HSC].
   destruct (find_split DATA_PH Y) eqn:FDY; [discriminate|].
-  apply negb_true_iff in HXJ.
   destruct (scan_pre MData [] X) as [[[m0 cur0] found0]|] eqn:SP; [|discriminate].
   destruct m0; try discriminate. destruct cur0; [|discriminate].
-  destruct Y as [|c0 Y0]; [discriminate|]. apply negb_true_iff in HY0.
-  destruct (find_split JS_PH (c0 :: Y0)) as [[Y1 Y2]|] eqn:FJ; [|discriminate].
-  apply andb_prop in HJS as [HC HJ2]. destruct (find_split JS_PH Y2) eqn:FJ2; [discriminate|].
   rewrite (repl_once _ _ _ _ _ FD FDY).
-  pose proof (occurs_js_data _ Hj) as HD.
-  assert (F1 : find_split JS_PH (X ++ data_script j ++ c0 :: Y0) = Some (X ++ data_script j ++ Y1, Y2)).
-  { assert (HDh : exists D', data_script j = 119 :: D') by (eexists; reflexivity).
-    destruct HDh as [D' HD']. rewrite HD' at 1. cbn [app].
-    rewrite (find_app_hd _ JS_PH_ne X 119 _ HXJ) by (vm_compute; reflexivity).
-    change (119 :: D' ++ c0 :: Y0) with ((119 :: D') ++ c0 :: Y0). rewrite <- HD'.
-    rewrite (find_app_hd _ JS_PH_ne (data_script j) c0 Y0 HD HY0), FJ. reflexivity. }
-  rewrite (repl_once _ _ _ _ _ F1 FJ2).
-  apply (mk_shape _ _ _ X Y1 Y2 found0); [|exact SP|exact HSC|exact HC].
-  rewrite <- !app_assoc. reflexivity.
+  apply (mk_shape _ _ X Y found0); [reflexivity|exact SP|exact HSC|exact HC].
 Qed.
 
 Lemma filter_none {A} (P : A -> bool) l : forallb (fun t => negb (P t)) l = true -> filter P l = [].
@@ -448,33 +514,31 @@ Proof. induction a; [reflexivity|assumption]. Qed.
 Lemma firstn_app_exact {A} (a b : list A) : firstn (length a) (a ++ b) = a.
 Proof. induction a as [|x a IH]; [reflexivity|]. cbn [length app firstn]. f_equal. exact IH. Qed.
 
-Lemma strip_data_script j : strip_data (data_script j) = Some j.
+Lemma strip_framed e : strip_data (Emb.data_prefix ++ e ++ Emb.data_suffix) = Some e.
 Proof.
-  unfold strip_data, is_data_script, data_script. rewrite prefix_id_self, skipn_app_exact.
+  unfold strip_data, is_data_script. rewrite prefix_id_self, skipn_app_exact.
   rewrite sfx_eq. unfold ends_with. rewrite rev_app_distr. cbn [rev app prefix].
   unfold idc at 1. rewrite N.eqb_refl. cbn [andb].
-  rewrite app_length. cbn [length]. replace (length j + 1 - 1)%nat with (length j) by lia.
+  rewrite app_length. cbn [length]. replace (length e + 1 - 1)%nat with (length e) by lia.
   rewrite firstn_app_exact. reflexivity.
 Qed.
 
-Lemma extract_of_shape js j doc :
-  shape js j doc -> no_script_close j = true -> extract_script doc = Some j.
+Lemma extract_of_shape j doc : shape j doc -> extract_script doc = Some (esc_lt j).
 Proof.
-  intros [X Y1 Y2 found0 Hdoc Hscan Hnone Hclose] Hj. subst doc.
-  unfold no_script_close in Hj. apply negb_true_iff in Hj.
+  intros [X Y found0 Hdoc Hscan Hnone Hclose]. subst doc.
   unfold extract_script. rewrite (scan_pre_sound _ _ _ _ _ _ Hscan).
-  assert (Hd : data_script j ++ Y1 ++ js ++ Y2 = (Emb.data_prefix ++ j) ++ 59 :: (Y1 ++ js ++ Y2)).
+  assert (Hd : data_script j ++ Y = (Emb.data_prefix ++ esc_lt j) ++ 59 :: Y).
   { unfold data_script. rewrite sfx_eq, <- !app_assoc. reflexivity. }
   rewrite Hd. rewrite scan_data_take.
   - rewrite filter_app, (filter_none _ _ Hnone). cbn [app rev filter].
-    assert (Hd2 : (Emb.data_prefix ++ j) ++ [59] = data_script j).
-    { unfold data_script. rewrite sfx_eq, <- app_assoc. reflexivity. }
+    assert (Hd2 : (Emb.data_prefix ++ esc_lt j) ++ [59] = Emb.data_prefix ++ esc_lt j ++ Emb.data_suffix).
+    { rewrite sfx_eq, <- app_assoc. reflexivity. }
     rewrite Hd2.
-    assert (Hi : is_data_script (data_script j) = true) by apply prefix_id_self.
-    rewrite Hi. apply strip_data_script.
-  - rewrite CLOSE_eq, occurs_skip by (vm_compute; reflexivity). rewrite <- CLOSE_eq. exact Hj.
+    assert (Hi : is_data_script (Emb.data_prefix ++ esc_lt j ++ Emb.data_suffix) = true) by apply prefix_id_self.
+    rewrite Hi. apply strip_framed.
+  - rewrite CLOSE_eq, occurs_skip by (vm_compute; reflexivity). rewrite <- CLOSE_eq. apply esc_lt_no_close.
   - vm_compute; reflexivity.
-  - apply closes_app_r, Hclose.
+  - exact Hclose.
 Qed.
 
 (* ===================================================================================== *)
